@@ -42,8 +42,8 @@ use tosub::SubsystemHandle;
 use tracing::{Level, debug, error, info, span};
 use worterbuch_common::{
     KeySegment, PStateEvent, SYSTEM_TOPIC_CLIENTS, SYSTEM_TOPIC_GRAVE_GOODS,
-    SYSTEM_TOPIC_LAST_WILL, SYSTEM_TOPIC_MODE, SYSTEM_TOPIC_ROOT, ValueEntry, topic, while_select,
-    write_line_and_flush,
+    SYSTEM_TOPIC_LAST_WILL, SYSTEM_TOPIC_MODE, SYSTEM_TOPIC_ROOT, SYSTEM_TOPIC_ROOT_PREFIX,
+    ValueEntry, topic, while_select, write_line_and_flush,
 };
 
 pub(crate) async fn run_in_leader_mode(
@@ -250,6 +250,33 @@ async fn try_forward_api_call(
                 }
             }
             tx.send(Ok(imported_values)).ok();
+        }
+        Some(WbFunction::Disconnected(client_id, remote_addr)) => {
+            // the grave goods and the last will of the client are applied inside `disconnected`,
+            // not through API calls, so their effect has to be mirrored explicitly
+            let grave_goods = worterbuch.grave_goods_for_client(&client_id);
+            let last_will = worterbuch.last_will_for_client(&client_id);
+            process_api_call(worterbuch, WbFunction::Disconnected(client_id, remote_addr)).await;
+            for pattern in grave_goods.into_iter().flatten() {
+                if !pattern.starts_with(SYSTEM_TOPIC_ROOT_PREFIX) {
+                    forward_to_followers(
+                        ClientWriteCommand::PDelete(pattern),
+                        client_write_txs,
+                        dead,
+                    )
+                    .await;
+                }
+            }
+            for kvp in last_will.into_iter().flatten() {
+                if !kvp.key.starts_with(SYSTEM_TOPIC_ROOT_PREFIX) {
+                    forward_to_followers(
+                        ClientWriteCommand::Set(kvp.key, kvp.value, true),
+                        client_write_txs,
+                        dead,
+                    )
+                    .await;
+                }
+            }
         }
         Some(function) => {
             // TODO check if processing was successful and only then forward api call
